@@ -87,8 +87,9 @@ Full statement / proved / missing
   `ppArray` / `ppHash` / `ppObj` of the element renderings — line break and 2·L blanks when the context indents, one entry per line
   at level L+1, the closing delimiter on its own line), `C20_x_typ` (a Type is its name and its parameters formatted as an Array under
   the same map), `C20_x_width_partial` (width reached
-  wherever the code applies the string flags: SemVer / URI `s`, Type `s p`).  The full width statement `C20_x_width_full` is FALSE:
-  `C20_x_width_fails` (known finding C20-width-ignored: `%20p` of a SemVer, any width on a SemVerRange, Timespan, Timestamp, Sensitive).
+  wherever the code applies the string flags: SemVer, URI, SemVerRange — every letter, after fix 5c2f826 — and Type).  The full width
+  statement `C20_x_width_full` is FALSE: `C20_x_width_fails` (known finding C20-width-ignored, narrowed: the ToString of Timespan,
+  Timestamp and Sensitive never looks at the format).
 * PER-TYPE MAPS OVER ANY KEY TYPES (`Model/FormatMergeG.lean`: mergeFormats over a key order `KeyOrd` = IsAssignable / Equals / typeRank /
   String(); `Model/FormatLat.lean`: keys = arbitrary types of the lattice model, acceptance = `Lat.asg key (Lat.ptype v)`):
   `C20_map_most_specific_any` (the lookup law for ANY key system whose assignability is a partial order ON THE KEYS OF THE MAP and
@@ -99,10 +100,11 @@ Full statement / proved / missing
   `C20_map_table_is_instance` (the 16-key model of `new(String, v, map)` above — `contextMap`, `mergeMaps`, `sortEntries` over the
   table `Key.sub` — IS the general rule instantiated with the default types: entry by entry at every nesting level, hence the same text).
 * THE FORMAT STRINGS OF A TIMESPAN (`Timespan.Format`, `Model/FormatSpan.lean`: `%D %H %M %S %L %N`, the flags `-` `_` `0`, a width, `%%`;
-  op `span`): `C20_span_total_partial` (text or the reported bad-format error for every format whose widths are within fmt's limit
-  and that has no remainder-nanosecond segment of width 0), full statement `C20_span_total_full` FALSE: `C20_span_fails_width_zero`
-  (known finding C20-span-nano-width-zero: `%D %-0N` divides by zero, `utils.Int64Pow(10, 0)` is 0) and `C20_span_fails_width_limit`
-  (known finding C20-span-width-limit: `%20000000D` shows fmt's `%!(NOVERB)`), `C20_span_width` (a `0`- or blank-padded D H M S
+  op `span`): `C20_span_total` (for EVERY format string and every Timespan: a text or the reported bad-format error, no Go fault and no
+  fmt marker — the code after the repairs 03fcfad and 5257aa1: every width the parser lets through is within fmt's limit,
+  `spanParse_ok`), `C20_span_zero_width_before_fix` / `C20_span_width_limit_before_fix` (the two repaired defects, witnessed on the
+  model of the code before the repairs, `SpanCode.before`: `%D %-0N` divided by zero because `utils.Int64Pow(10, 0)` was 0;
+  `%20000000D` showed fmt's `%!(NOVERB)`), `C20_span_width` (a `0`- or blank-padded D H M S
   segment is at least as wide as requested), `C20_span_sum` (the segments of `%D-%H:%M:%S.%N` add up to the value),
   `C20_span_literal` (a format without `%` is rendered verbatim).
 * missing: the digits of `%e %f %g %a` (fmt/strconv float formatting is a parameter `FloatIO`; only the dispatch,
@@ -809,38 +811,41 @@ theorem C20_x_flags_table (k : XKind) (c : Char) (h : documentedInX formatLetter
   rw [documentedInX_eq_acceptsX formatLettersX C20_x_letters] at h
   exact flaggedInX_eq_honours formatLettersX C20_x_letters k c h
 
-/-- **width, the kinds of the extended model** — wherever the code applies the string flags (SemVer and URI under `s`, a Type
-    under `s` and `p`) the text is at least as wide as requested -/
+/-- **width, the kinds of the extended model** — SemVer, URI, SemVerRange (all their letters: fix 5c2f826 routed `%p` of SemVer / URI
+    and both letters of SemVerRange through ApplyStringFlags) and Type values: the text is at least as wide as requested -/
 theorem C20_x_width_partial (io : FloatIO) (d : Str) (f : Fmt) (v : XVal) (w : Nat) (s : Str) (h : Directive d f)
-    (hk : v.kind = .semver ∨ v.kind = .uri ∨ v.kind = .typ) (hfl : honoursFlags v.kind f.letter = true)
+    (hk : v.kind = .semver ∨ v.kind = .uri ∨ v.kind = .semverRange ∨ v.kind = .typ)
     (hw : f.width = some w) (hs : formatDirectiveX io d v = .text s) : w ≤ s.length := by
   unfold formatDirectiveX formatX at hs
   rw [h] at hs
   have hg : getG kindKeys [(XKey.base .any, GTree.mk f none)] v = .mk f none := by
     simp [getG, kindKeys, XKey.accepts]
-  exact fmtX_width_flagged kindKeys io _ Ind.default v w hk (by rw [hg]; exact hfl) (by rw [hg]; exact hw) s hs
+  exact fmtX_width_flagged kindKeys io _ Ind.default v w hk (by rw [hg]; exact hw) s hs
 
 example : formatDirectiveX io0 "%-12s".toList (.semver "1.0.0".toList) = .text "1.0.0       ".toList ∧
-    honoursFlags .semver 's' = true ∧
-    formatDirectiveX io0 "%16p".toList (.typ "Integer".toList [.int 0, .int 9]) = .text "   Integer[0, 9]".toList ∧
-    honoursFlags .typ 'p' = true := by decide +kernel
+    formatDirectiveX io0 "%20p".toList (.semver "1.0.0".toList) = .text "     SemVer('1.0.0')".toList ∧
+    formatDirectiveX io0 "%-8s".toList (.semverRange "1.x".toList ">=1.0.0 <2.0.0".toList) = .text "1.x     ".toList ∧
+    formatDirectiveX io0 "%.5p".toList (.uri "a:b".toList) = .text "URI('".toList ∧
+    honoursFlags .semver 'p' = true ∧ honoursFlags .semverRange 's' = true ∧
+    formatDirectiveX io0 "%16p".toList (.typ "Integer".toList [.int 0, .int 9]) = .text "   Integer[0, 9]".toList := by decide +kernel
 
 /-- the full statement: every value that is not a container is rendered at least as wide as requested (the float-digit
     letters excepted as in `C20_width`) -/
 def C20_x_width_full : Prop := ∀ (io : FloatIO) (d : Str) (f : Fmt) (v : XVal) (w : Nat) (s : Str), Directive d f →
   v.isContainer = false → f.width = some w → isFloatLetter f.letter = false → formatDirectiveX io d v = .text s → w ≤ s.length
 
-/-- known finding C20-width-ignored: `%20p` of a SemVer is `SemVer('1.0.0')`, 15 wide — the `p` arm of SemVer / URI, both arms of
-    SemVerRange and the ToString of Timespan, Timestamp and Sensitive never consult the width -/
+/-- known finding C20-width-ignored (narrowed by fix 5c2f826 to the three kinds whose ToString never looks at the format: Timespan,
+    Timestamp, Sensitive): `%30s` of the Timespan 0 is `0-00:00:00.0`, 12 wide -/
 theorem C20_x_width_fails : ¬ C20_x_width_full := by
   intro h
-  have := h io0 "%20p".toList (parsed "%20p") (.semver "1.0.0".toList) 20 "SemVer('1.0.0')".toList
+  have := h io0 "%30s".toList (parsed "%30s") (.tspan 0) 30 "0-00:00:00.0".toList
     (by decide +kernel) (by decide +kernel) (by decide +kernel) (by decide +kernel) (by decide +kernel)
   revert this; decide +kernel
 
-example : formatDirectiveX io0 "%30s".toList (.tspan 0) = .text "0-00:00:00.0".toList ∧
-    formatDirectiveX io0 "%30s".toList (.semverRange "1.x".toList "1.x".toList) = .text "1.x".toList ∧
-    honoursFlags .tspan 's' = false ∧ honoursFlags .semverRange 's' = false ∧ honoursFlags .semver 'p' = false := by decide +kernel
+example : formatDirectiveX io0 "%30s".toList (.tstamp "2017-07-14T02:40:00.000000000 UTC".toList) =
+      .text "2017-07-14T02:40:00.000000000 UTC".toList ∧
+    formatDirectiveX io0 "%40p".toList (.sensitive (.int 1)) = .text "Sensitive [value redacted]".toList ∧
+    honoursFlags .tspan 's' = false ∧ honoursFlags .tstamp 's' = false ∧ honoursFlags .sensitive 'p' = false := by decide +kernel
 
 /-- **structural recursion, arrays** (alt or not, any key system): what `Array.ToString2` writes is `arrayAssemble` — the
     delimiters, separators, line breaks and indentation — of the renderings of the elements under the element context (a
@@ -1057,23 +1062,25 @@ example : ppObj { simpleFmt 'p' with alt := true } 1 true true "T".toList [("'k'
 
 /-! ## the format strings of a Timespan: `Timespan.Format(format)` (`Pcore/Model/FormatSpan.lean`; op `span`) -/
 
-/-- the full statement: formatting a Timespan never faults -/
+/-- formatting a Timespan never faults -/
 def C20_span_total_full : Prop := ∀ (fm : Str) (ns : Int), spanFormat fm ns ≠ .fault
 
-/-- **totality** outside the two classes where the code faults: for every format string and every Timespan the result is a text or
-    the reported bad-format error, provided the segments' widths are within fmt's limit and no nanosecond segment that shows a
-    remainder has width 0 -/
-theorem C20_span_total_partial (fm : Str) (ns : Int) (h : ∀ segs, spanParse fm = some segs → SegsOK segs) :
-    (∃ s, spanFormat fm ns = .text s) ∨ spanFormat fm ns = .badSpec := by
-  unfold spanFormat
-  cases hp : spanParse fm with
+/-- **totality**, every format string, every Timespan (the code after the repairs 03fcfad and 5257aa1): the result is a text or the
+    reported bad-format error — no Go runtime fault, no fmt error marker -/
+theorem C20_span_total (fm : Str) (ns : Int) : (∃ s, spanFormat fm ns = .text s) ∨ spanFormat fm ns = .badSpec := by
+  unfold spanFormat spanFormatC
+  cases hp : spanParseC .now fm with
   | none => exact Or.inr rfl
-  | some segs => exact Or.inl (spanFormat2_total segs (h segs hp) ns)
+  | some segs => exact Or.inl (spanFormat2_total segs (spanParse_ok fm segs hp) ns)
 
-/-- non-vacuity: the default format and a format with every flag pass the side condition -/
-example : (∀ segs, spanParse "%D-%H:%M:%S.%-N".toList = some segs → SegsOK segs) ∧
-    (∀ segs, spanParse "%_5H|%-M|%03S %6N".toList = some segs → SegsOK segs) :=
-  ⟨spanFormatOKb_sound _ (by decide +kernel), spanFormatOKb_sound _ (by decide +kernel)⟩
+theorem C20_span_no_fault : C20_span_total_full := by
+  intro fm ns h
+  rcases C20_span_total fm ns with ⟨s, hs⟩ | hs <;> rw [hs] at h <;> cases h
+
+/-- the earlier, conditional form (kept): under the side condition `SegsOK` on the parsed segments — which `spanParse_ok` now
+    establishes for every format -/
+theorem C20_span_total_partial (fm : Str) (ns : Int) (_h : ∀ segs, spanParse fm = some segs → SegsOK segs) :
+    (∃ s, spanFormat fm ns = .text s) ∨ spanFormat fm ns = .badSpec := C20_span_total fm ns
 
 example : spanFormat "%D-%H:%M:%S.%-N".toList 90061500000000 = .text "1-01:01:01.5".toList ∧
     spanFormat "%H:%M".toList 90061500000000 = .text "25:01".toList ∧
@@ -1082,17 +1089,20 @@ example : spanFormat "%D-%H:%M:%S.%-N".toList 90061500000000 = .text "1-01:01:01
     spanFormat "%D-%H:%M:%S.%-N".toList (-90061500000000) = .text "-1-01:01:01.5".toList ∧
     spanFormat "%-_H".toList 0 = .badSpec ∧ spanFormat "100%% %S".toList 1500000000 = .text "100% 01".toList := by decide +kernel
 
-/-- known finding C20-span-nano-width-zero: `Timespan(50ms).Format("%D %-0N")` is a Go runtime fault (integer divide by zero:
-    `utils.Int64Pow(10, 0)` answers 0) -/
-theorem C20_span_fails_width_zero : ¬ C20_span_total_full := by
-  intro h
-  exact h "%D %-0N".toList 50000000 (by decide +kernel)
+/-- the repaired code on the inputs of the two defects: width 0 shows the value modulo 1, a width above 10^6 is a bad format specifier -/
+example : spanFormat "%D %-0N".toList 50000000 = .text "0 0".toList ∧ spanFormat "%S.%_0N".toList 1500000000 = .text "01.0".toList ∧
+    spanFormat "%20000000D".toList 0 = .badSpec ∧ spanFormat "%S %-20000000N".toList 50000000 = .badSpec ∧
+    spanParse "%1000000D".toList = some [.val ⟨.day, some '0', some 1000000, true⟩] := by decide +kernel
 
-/-- known finding C20-span-width-limit: a width beyond fmt's limit reaches fmt and shows as `%!(NOVERB)` -/
-theorem C20_span_fails_width_limit : ∃ (fm : Str) (ns : Int) (segs : List Seg), spanParse fm = some segs ∧
-      (∀ s ∈ segs, ∀ v, s = .val v → v.kind ≠ .nano) ∧ spanFormat fm ns = .fault :=
-  ⟨"%20000000D".toList, 0, [.val ⟨.day, some '0', some 20000000, true⟩], by decide +kernel,
-    by intro s hs v hv; simp at hs; subst hs; cases hv; decide, by decide +kernel⟩
+/-- fixed finding C20-span-nano-width-zero (03fcfad), witnessed on the model of the code before the repair: `Timespan(50ms).Format("%D %-0N")`
+    was a Go runtime fault (integer divide by zero: `utils.Int64Pow(10, 0)` answered 0) -/
+theorem C20_span_zero_width_before_fix : spanFormatC .before "%D %-0N".toList 50000000 = .fault ∧
+    spanFormatC ⟨true, false⟩ "%D %-0N".toList 50000000 = .text "0 0".toList := by decide +kernel
+
+/-- fixed finding C20-span-width-limit (5257aa1), witnessed on the model of the code before the repair: a width beyond fmt's limit
+    reached fmt and showed as `%!(NOVERB)` -/
+theorem C20_span_width_limit_before_fix : spanFormatC .before "%20000000D".toList 0 = .fault ∧
+    spanFormatC ⟨false, true⟩ "%20000000D".toList 0 = .badSpec := by decide +kernel
 
 /-- **width**: a `0`- or blank-padded day / hour / minute / second segment is at least as wide as requested -/
 theorem C20_span_width (c : Char) (hc : c = '0' ∨ c = ' ') (w : Nat) (h1 : 1 ≤ w) (h2 : w ≤ 1000000) (n : Int) (s : Str)
@@ -1107,13 +1117,13 @@ theorem C20_span_sum (ns : Int) (h : 0 ≤ ns) :
 example : spanParse "%D-%H:%M:%S.%N".toList = some [.val ⟨.day, some '0', none, true⟩, .lit ['-'], .val ⟨.hour, some '0', none, false⟩,
     .lit [':'], .val ⟨.minute, some '0', none, false⟩, .lit [':'], .val ⟨.second, some '0', none, false⟩, .lit ['.'],
     .val ⟨.nano, some '0', none, false⟩] ∧
-    segValue ⟨.day, some '0', none, true⟩ 90061500000000 = some 1 ∧ segValue ⟨.hour, some '0', none, false⟩ 90061500000000 = some 1 ∧
-    segValue ⟨.nano, some '0', none, false⟩ 90061500000000 = some 500000000 := by decide +kernel
+    segValue .now ⟨.day, some '0', none, true⟩ 90061500000000 = some 1 ∧ segValue .now ⟨.hour, some '0', none, false⟩ 90061500000000 = some 1 ∧
+    segValue .now ⟨.nano, some '0', none, false⟩ 90061500000000 = some 500000000 := by decide +kernel
 
 /-- **literal text is rendered verbatim**: a format without `%` is its own rendering, for every non-negative Timespan -/
 theorem C20_span_literal (fm : Str) (hfm : ∀ c ∈ fm, c ≠ '%') (ns : Int) (h : 0 ≤ ns) : spanFormat fm ns = .text fm := by
   have key : ∀ (l : Str) (pre : List Seg), (∀ c ∈ l, c ≠ '%') → (pre = [] ∨ ∃ p, pre = [.lit p]) →
-      spanSteps ⟨pre, none, .literal, some '0', none⟩ l =
+      spanSteps .now ⟨pre, none, .literal, some '0', none⟩ l =
         some ⟨(match pre, l with | [], [] => [] | [], _ => [.lit l] | [.lit p], _ => [.lit (p ++ l)] | _, _ => pre), none, .literal, some '0', none⟩ := by
     intro l
     induction l with
@@ -1130,7 +1140,7 @@ theorem C20_span_literal (fm : Str) (hfm : ∀ c ∈ fm, c ≠ '%') (ns : Int) (
         rw [ih [.lit (p ++ [c])] hcs (Or.inr ⟨p ++ [c], rfl⟩)]
         cases cs <;> simp
   have hlt : ¬ ns < 0 := by omega
-  unfold spanFormat spanParse
+  unfold spanFormat spanFormatC spanParseC
   rw [key fm [] hfm (Or.inl rfl)]
   cases fm with
   | nil => simp [spanFormat2, segsText, hlt]
